@@ -2,6 +2,7 @@ package values
 
 import (
 	"reflect"
+	"runtime"
 )
 
 type structValue struct{ wrapperValue }
@@ -43,7 +44,7 @@ func (sv structValue) PropertyValue(index Value) Value {
 	if st.Kind() == reflect.Ptr {
 		if _, found := st.MethodByName(name); found {
 			m := sr.MethodByName(name)
-			return sv.invoke(m)
+			return sv.invokeMethod(sr.Elem(), name, m)
 		}
 		st = st.Elem()
 		sr = sr.Elem()
@@ -53,7 +54,7 @@ func (sv structValue) PropertyValue(index Value) Value {
 	}
 	if _, ok := st.MethodByName(name); ok {
 		m := sr.MethodByName(name)
-		return sv.invoke(m)
+		return sv.invokeMethod(sr, name, m)
 	}
 	if field, ok := sv.findField(name); ok {
 		// a field promoted from an embedded pointer that is nil has no value
@@ -81,6 +82,47 @@ func (e MethodError) Error() string { return e.Err.Error() }
 
 // Unwrap returns the method's error.
 func (e MethodError) Unwrap() error { return e.Err }
+
+// invokeMethod calls the method m, named name, of the struct sr. Like a field
+// promoted from an embedded pointer that is nil, a method promoted from one has
+// no value: calling it dereferences nil.
+func (sv structValue) invokeMethod(sr reflect.Value, name string, m reflect.Value) (result Value) {
+	if sr.Kind() == reflect.Struct && promotedThroughNil(sr, name) {
+		defer func() {
+			if r := recover(); r != nil {
+				if _, ok := r.(runtime.Error); !ok {
+					panic(r)
+				}
+				result = nilValue
+			}
+		}()
+	}
+	return sv.invoke(m)
+}
+
+// promotedThroughNil reports whether the struct sr embeds a pointer that is nil
+// and whose type has a method of this name (which sr's own method may hide).
+func promotedThroughNil(sr reflect.Value, name string) bool {
+	st := sr.Type()
+	for i, n := 0, st.NumField(); i < n; i++ {
+		field := st.Field(i)
+		if !field.Anonymous {
+			continue
+		}
+		if _, found := field.Type.MethodByName(name); !found {
+			continue
+		}
+		fv := sr.Field(i)
+		if fv.Kind() == reflect.Ptr {
+			if fv.IsNil() {
+				return true
+			}
+			fv = fv.Elem()
+		}
+		return fv.Kind() == reflect.Struct && promotedThroughNil(fv, name)
+	}
+	return false
+}
 
 const tagKey = "liquid"
 
